@@ -100,6 +100,9 @@ func (ww *conversionVisitor) visitServiceMethodNode(service *serviceBuilder, nod
 
 	if node.OutputType == "google.api.HttpBody" {
 		ww.file.ensureImport(googleApiHttpBodyImport)
+		// from the root: inside a package such as acme.google.v1 the bare
+		// name is looked up below acme.google first
+		methodBuilder.desc.OutputType = gl.Ptr(".google.api.HttpBody")
 	}
 
 	annotation := &annotations.HttpRule{}
